@@ -8,11 +8,15 @@ func describe() {
 		"of a 12-block chain with a validator-set change at height 4 and block spacing chosen so that each expiry class (fresh, only height window exceeded, only time window exceeded, both) occurs; "+
 		"plus 38 single-field mutations of a valid evidence and everything the real VoteSet + types.NewDuplicateVoteEvidence build from two conflicting votes, each through four paths (reactor codec + AddEvidence, AddEvidence, "+
 		"block decoding + ValidateBasic + CheckEvidence, CheckEvidence) and AddEvidenceFromConsensus + restart for constructor output. "+
-		"(b) breadth-first reachable state graph of a real pool from head 5 over the alphabet add(e) / cons(e) / check(list<=2) / commit(block with list<=2 through the real ValidateBlock + ApplyBlock) / restart "+
-		"with e in {E1, E2, E1 index-mutated, E1 swapped, E1 re-encoded signature, E1 re-typed (D4), Eold (expires with the next block), Eexp, Efut}; a state = pool databases + every in-memory field the alphabet reads + the model's open obligations; "+
+		"(b) breadth-first reachable state graph of a real pool from head 5 over the alphabet add(e) / cons(report of e) / check(list<=2) / commit(block with list<=2 through the real ValidateBlock + ApplyBlock) / restart "+
+		"with e in {E1, E2, E1 index-mutated, E1 swapped, E1 re-encoded signature, E1 re-typed (D4), Eold (expires with the next block), Eexp, Efut, Ecur (evidence of the height consensus works on)}; "+
+		"a consensus report wraps e's two votes as tryAddVote does: canonically, with the NEXT block's time (late precommit), or with that time and the powers of the other validator set; "+
+		"commit tokens carry evidence built canonically by the checker (as another node would have produced it) whether this pool has it pending, only as a report of its consensus, or not at all; "+
+		"a state = pool databases + every in-memory field the alphabet reads + the buffered reports + (thorough) the gossip list + the model's open obligations; "+
+		"oracles: who may become / stop being pending (also through the commit itself), pending and gossip list exclude committed and expired, no double-signing accepted again once committed, lists repeating evidence refused, restart preserves; "+
 		"successors by cloning the live pool (validated against a replay of the whole history on every 64th transition). "+
 		"(c) every placement {network: equivocator proposes height 4 / height 1} x {height of the equivocation} x {prevote/precommit} x {targets} x {which correct nodes get both votes, order} x {second vote before/after the decision} x "+
-		"{which correct nodes additionally get the equivocator's late precommit for the previous block} on netsim's synchronous schedule (thorough: plus every single schedule deviation on a selection), for two parameter sets, "+
+		"{which correct nodes additionally get the equivocator's late precommit for the previous block}, plus the mixed shape (one node gets both precommits during the height, the others the second one only in NewHeight of the next height), on netsim's synchronous schedule (thorough: plus every single schedule deviation on a selection), for two parameter sets, "+
 		"and one run of the real single-validator stack. "+
 		"A case is non-trivial when it reached the pool's own logic (not refused by the wire codec); distinct_nontrivial counts distinct (combination, reference class, expiry class, number of accepting paths) "+
 		"tuples of (a) and distinct (scenario class, outcome, evidence created, evidence committed, rules violated) tuples of (c).")
@@ -21,11 +25,11 @@ func describe() {
 		"Vote order: the property is silent on canonical order; reference-valid evidence in non-canonical order may be accepted or rejected (it is refused by ValidateBasic on every wire path). Evidence built by types.NewDuplicateVoteEvidence must be accepted whatever order the constructor chose.",
 		"Fields no signature covers (ValidatorIndex, signature re-encoding) and non-vote type values: the property is silent on whether such a variant is acceptable while nothing is committed (part a: either outcome); after the double-signing is committed every variant must be refused (part b).",
 		"Completeness (valid evidence is accepted) is judged on the wire paths and the consensus path; on the two in-memory entry points only soundness and panics are judged (an object the codec refuses never reaches them). Evidence whose time is the same instant in another time.Location is judged on the wire paths only.",
-		"AddEvidenceFromConsensus is only offered evidence a correct consensus can have built: real VoteSet + constructor output in (a); in (b) E1 / E2 while the chain head is their height (consensus works on the next height and reports evidence of that height or the one before). The property does not say when such evidence must become pending: the weakest reading used is 'at the latest when the next block is committed'; a restart drops the obligation (the node would see the votes again in its WAL).",
+		"AddEvidenceFromConsensus is only offered evidence a correct consensus can have built: real VoteSet + constructor output in (a); in (b) reports of E1 / E2 / Ecur while the chain head is their height or the one below (consensus works on head+1 and reports evidence of that height or the one before), in the wrappings tryAddVote produces. The property does not say when such evidence must become pending: the weakest reading used is 'at the latest when the next block is committed'; a restart drops the obligation (the node would see the votes again in its WAL).",
 		"Part (a) gives every pool its own empty evidence database over a shared read-only chain database (pool keys are prefix-separated from chain keys); part (b) and netsim use one database for both, as mainchain/backend.go does.",
 		"Part (c) gossips like the evidence reactor: a holder sends evidence to a peer once the peer's consensus height is above the evidence height, through the reactor's encodeMsg/decodeMsg; netsim's simulated application transcribes BlockOperations.CreateProposalBlock; the original is exercised by the full-stack probe, and the rule 'pending evidence is proposed' is not judged on the transcription when the original behaves differently.",
 		"Part (c) judges 'proposed' only for pending evidence of a height below the proposed block's height; a nil prevote on a complete block of a correct proposer is attributed to the evidence only if CheckEvidence of that node then returns an error for it.",
 		"netsim pruning by state key is switched off in part (c): the key does not contain pool contents.",
-		"Part (b) leaves the pool's gossip list (evidenceList) out of the state key: no operation of the alphabet reads it.",
+		"Part (b), quick tier, leaves the pool's gossip list (evidenceList) out of the state key: no operation of the alphabet reads it, so only states with equal futures for pending / committed / acceptance are merged; the oracle 'the gossip list holds nothing committed' is then evaluated on each state's smallest history (which prefers add over check, i.e. the larger list). The thorough tier has the list in the key.",
 	)
 }
